@@ -376,6 +376,7 @@ func (x *Exec) enterLoop(fr *frame, li *loopInfo, s *State) *State {
 		}
 	}
 	n.IterFrontier = n.Frontier
+	defer func() { n.HeadSt = n.Clone() }()
 	for _, a := range autoInv {
 		x.C.Assume(Implies(n.Reach, riInv(n, a)))
 	}
